@@ -97,7 +97,10 @@ func (s *service) GetPackage(_ context.Context, in *pb.GetPackageRequest) (*pb.P
 		return nil, notFound("package")
 	}
 	out := &pb.Package{PackageKey: &pb.PackageKey{System: pb.System_NPM, Name: p.Name}}
-	for _, v := range p.Versions {
+	// The service lists the versions in its own order (here: the registry's
+	// order reversed); the client's ordering must not depend on it.
+	for i := len(p.Versions) - 1; i >= 0; i-- {
+		v := p.Versions[i]
 		out.Versions = append(out.Versions, &pb.Package_Version{
 			VersionKey: &pb.VersionKey{System: pb.System_NPM, Name: p.Name, Version: v.Version},
 			IsDefault:  v.Default,
